@@ -166,6 +166,267 @@ Lemma atoi64_borderline :
   atoi64 (B "9223372036854775808") = None /\ atoi64 (B "-9223372036854775808") = Some (- 2 ^ 63).
 Proof. repeat split; vm_compute; reflexivity. Qed.
 
+(* ------------------------------------------------------------------ DEL: sequential deletion vs the clause *)
+Lemma mentions_cons k0 r k : mentions (k0 :: r) k = bytes_eqb k k0 || mentions r k.
+Proof. reflexivity. Qed.
+
+Lemma del_keys_get keys : forall d n k,
+  db_get (snd (del_keys d keys n)) k = if mentions keys k then None else db_get d k.
+Proof.
+  induction keys as [|k0 r IH]; intros d n k; [reflexivity|].
+  cbn [del_keys]. rewrite mentions_cons.
+  destruct (db_get d k0); rewrite IH, db_get_del; destruct (bytes_eqb k k0), (mentions r k); reflexivity.
+Qed.
+
+Lemma del_keys_ttl keys : forall d n k,
+  db_ttl (snd (del_keys d keys n)) k = if mentions keys k then None else db_ttl d k.
+Proof.
+  induction keys as [|k0 r IH]; intros d n k; [reflexivity|].
+  cbn [del_keys]. rewrite mentions_cons.
+  destruct (db_get d k0); rewrite IH, db_ttl_del; destruct (bytes_eqb k k0), (mentions r k); reflexivity.
+Qed.
+
+Definition has_key (d : db) (k : bytes) : bool := isSome (db_get d k).
+
+Lemma has_key_del d k0 k : has_key (db_del d k0) k = if bytes_eqb k k0 then false else has_key d k.
+Proof. unfold has_key. rewrite db_get_del. destruct (bytes_eqb k k0); reflexivity. Qed.
+
+Lemma filter_has_key_del_notin d k0 l : ~ In k0 l -> filter (has_key (db_del d k0)) l = filter (has_key d) l.
+Proof.
+  intros N. apply filter_ext_in. intros a Ha. rewrite has_key_del.
+  destruct (bytes_eqb_spec a k0) as [->|_]; [contradiction|reflexivity].
+Qed.
+
+Lemma filter_has_key_del_in d k0 l : NoDup l -> In k0 l ->
+  zlength (filter (has_key (db_del d k0)) l) + (if has_key d k0 then 1 else 0) = zlength (filter (has_key d) l).
+Proof.
+  induction l as [|a l IH]; intros ND Hin; [destruct Hin|].
+  inversion ND as [|? ? Hn ND']; subst. cbn [filter]. rewrite has_key_del.
+  destruct (bytes_eqb_spec a k0) as [->|N].
+  - rewrite (filter_has_key_del_notin d k0 l Hn).
+    destruct (has_key d k0); unfold zlength; cbn [List.length]; lia.
+  - destruct Hin as [E|Hin]; [congruence|]. specialize (IH ND' Hin).
+    destruct (has_key d a); unfold zlength in *; cbn [List.length]; lia.
+Qed.
+
+Lemma del_keys_count keys : forall d n,
+  fst (del_keys d keys n) = n + zlength (filter (has_key d) (nodup bytes_eq_dec keys)).
+Proof.
+  induction keys as [|k0 r IH]; intros d n; [cbn; unfold zlength; cbn; lia|].
+  cbn [del_keys nodup].
+  assert (E : fst (match db_get d k0 with
+                   | Some _ => del_keys (db_del d k0) r (n + 1)
+                   | None => del_keys (db_del d k0) r n end)
+              = n + (if has_key d k0 then 1 else 0) + zlength (filter (has_key (db_del d k0)) (nodup bytes_eq_dec r))).
+  { change (has_key d k0) with (isSome (db_get d k0)). destruct (db_get d k0); rewrite IH; cbn [isSome]; lia. }
+  rewrite E. destruct (in_dec bytes_eq_dec k0 r) as [Hin|Hn].
+  - pose proof (filter_has_key_del_in d k0 (nodup bytes_eq_dec r) (NoDup_nodup _ _)
+                  (proj2 (nodup_In _ _ _) Hin)). lia.
+  - rewrite filter_has_key_del_notin by (rewrite nodup_In; exact Hn).
+    cbn [filter]. destruct (has_key d k0); unfold zlength; cbn [List.length]; lia.
+Qed.
+
+(* ------------------------------------------------------------------ MSET: pairwise writes vs the clause *)
+Lemma view_mset_step d now k v k' :
+  view (db_set (db_del_ttl d k) k (VStr v)) now k' =
+  upd (view d now) k (Some (VStr v, None)) k'.
+Proof.
+  rewrite !view_unfold. autorewrite with dbops. unfold upd.
+  destruct (bytes_eqb k' k); [reflexivity|]. rewrite view_unfold. reflexivity.
+Qed.
+
+Lemma mset_view_ext ps : forall V1 V2, (forall k, V1 k = V2 k) -> forall k, mset_view V1 ps k = mset_view V2 ps k.
+Proof.
+  induction ps as [|p ps IH]; intros V1 V2 H k; [apply H|].
+  unfold mset_view in *. cbn [fold_left]. apply IH. intros k0. unfold upd. destruct (bytes_eqb k0 (fst p)); [reflexivity|apply H].
+Qed.
+
+Lemma mset_pairs_spec now l :
+  (forall d, match pairs_of l with
+             | Some ps => exists d', mset_pairs d l = Some d' /\ forall k, view d' now k = mset_view (view d now) ps k
+             | None => mset_pairs d l = None end) /\
+  (forall a d, match pairs_of (a :: l) with
+             | Some ps => exists d', mset_pairs d (a :: l) = Some d' /\ forall k, view d' now k = mset_view (view d now) ps k
+             | None => mset_pairs d (a :: l) = None end).
+Proof.
+  induction l as [|b l [IH1 IH2]].
+  - split; [intros d; exists d; split; reflexivity|intros a d; reflexivity].
+  - split; [apply IH2|].
+    intros a d. cbn [pairs_of mset_pairs].
+    specialize (IH1 (db_set (db_del_ttl d a) a (VStr b))).
+    destruct (pairs_of l) as [ps|]; [|exact IH1].
+    destruct IH1 as (d' & E & Hv). exists d'. split; [exact E|].
+    intros k. rewrite Hv. unfold mset_view at 2. cbn [fold_left fst snd].
+    apply mset_view_ext. intros k0. apply view_mset_step.
+Qed.
+
+(* ------------------------------------------------------------------ SET: the option loop vs the token reading *)
+Definition so_nx (o : setopts) := mkSetOpts true (o_xx o) (o_get o) (o_keepttl o) (o_ex o) (o_px o) (o_exat o).
+Definition so_xx (o : setopts) := mkSetOpts (o_nx o) true (o_get o) (o_keepttl o) (o_ex o) (o_px o) (o_exat o).
+Definition so_get (o : setopts) := mkSetOpts (o_nx o) (o_xx o) true (o_keepttl o) (o_ex o) (o_px o) (o_exat o).
+Definition so_keep (o : setopts) := mkSetOpts (o_nx o) (o_xx o) (o_get o) true (o_ex o) (o_px o) (o_exat o).
+Definition so_ex (n : Z) (o : setopts) := mkSetOpts (o_nx o) (o_xx o) (o_get o) (o_keepttl o) (Some n) (o_px o) (o_exat o).
+Definition so_px (n : Z) (o : setopts) := mkSetOpts (o_nx o) (o_xx o) (o_get o) (o_keepttl o) (o_ex o) (Some n) (o_exat o).
+Definition so_exat (n : Z) (o : setopts) := mkSetOpts (o_nx o) (o_xx o) (o_get o) (o_keepttl o) (o_ex o) (o_px o) (Some n).
+
+Fixpoint apply_tokens (ts : list sopt) (o : setopts) : option setopts :=
+  match ts with
+  | [] => Some o
+  | ONX :: r => apply_tokens r (so_nx o)
+  | OXX :: r => apply_tokens r (so_xx o)
+  | OGET :: r => apply_tokens r (so_get o)
+  | OKEEPTTL :: r => apply_tokens r (so_keep o)
+  | OEX a :: r => match atoi64 a with Some n => apply_tokens r (so_ex n o) | None => None end
+  | OPX a :: r => match atoi64 a with Some n => apply_tokens r (so_px n o) | None => None end
+  | OEXAT a :: r => match atoi64 a with Some n => apply_tokens r (so_exat n o) | None => None end
+  end.
+
+Lemma set_parse_tokens n : forall opts o, (List.length opts <= n)%nat ->
+  set_parse opts o = match set_tokens opts with Some ts => apply_tokens ts o | None => None end.
+Proof.
+  induction n as [|n IH]; intros opts o L.
+  - destruct opts; [reflexivity|cbn in L; lia].
+  - destruct opts as [|w r]; [reflexivity|]. cbn [List.length] in L.
+    cbn [set_parse set_tokens].
+    destruct (is (lower w) (B "nx")); [rewrite IH by lia; destruct (set_tokens r); reflexivity|].
+    destruct (is (lower w) (B "xx")); [rewrite IH by lia; destruct (set_tokens r); reflexivity|].
+    destruct (is (lower w) (B "get")); [rewrite IH by lia; destruct (set_tokens r); reflexivity|].
+    destruct (is (lower w) (B "keepttl")); [rewrite IH by lia; destruct (set_tokens r); reflexivity|].
+    destruct (is (lower w) (B "exat")) eqn:Eexat.
+    { assert (is (lower w) (B "ex") = false) as ->.
+      { unfold is in *. apply bytes_eqb_eq in Eexat. rewrite Eexat. reflexivity. }
+      assert (is (lower w) (B "px") = false) as ->.
+      { unfold is in *. apply bytes_eqb_eq in Eexat. rewrite Eexat. reflexivity. }
+      destruct r as [|a r']; [reflexivity|]. cbn [List.length] in L.
+      destruct (atoi64 a) eqn:A.
+      - rewrite IH by lia. destruct (set_tokens r'); cbn [apply_tokens]; [rewrite A|]; reflexivity.
+      - destruct (set_tokens r'); cbn [apply_tokens]; [rewrite A|]; reflexivity. }
+    destruct (is (lower w) (B "ex")).
+    { destruct r as [|a r']; [reflexivity|]. cbn [List.length] in L.
+      destruct (atoi64 a) eqn:A.
+      - rewrite IH by lia. destruct (set_tokens r'); cbn [apply_tokens]; [rewrite A|]; reflexivity.
+      - destruct (set_tokens r'); cbn [apply_tokens]; [rewrite A|]; reflexivity. }
+    destruct (is (lower w) (B "px")).
+    { destruct r as [|a r']; [reflexivity|]. cbn [List.length] in L.
+      destruct (atoi64 a) eqn:A.
+      - rewrite IH by lia. destruct (set_tokens r'); cbn [apply_tokens]; [rewrite A|]; reflexivity.
+      - destruct (set_tokens r'); cbn [apply_tokens]; [rewrite A|]; reflexivity. }
+    reflexivity.
+Qed.
+
+(* what the folded record says, in terms of the token list *)
+Definition ormax (a : option Z) (b : option Z) : option Z := match a with Some n => Some n | None => b end.
+
+(* one expiry option: [new] is the last readable argument of [l], or [old] when l is empty *)
+Definition chan_ok (l : list bytes) (old new : option Z) : Prop :=
+  new = ormax (last_read atoi64 l) old /\ all_read atoi64 l = true /\
+  isSome (last_read atoi64 l) = nonempty l.
+
+Lemma chan_cons a n l old new : atoi64 a = Some n -> chan_ok l (Some n) new -> chan_ok (a :: l) old new.
+Proof.
+  intros A (H1 & H2 & H3). unfold chan_ok, all_read in *. cbn [forallb nonempty]. rewrite A, H2.
+  destruct l as [|b l].
+  - cbn in H1. subst. cbn. rewrite A. auto.
+  - cbn [nonempty] in H3. change (last_read atoi64 (a :: b :: l)) with (last_read atoi64 (b :: l)).
+    destruct (last_read atoi64 (b :: l)) as [m|]; [|discriminate].
+    cbn in H1. subst. cbn. auto.
+Qed.
+
+Lemma apply_tokens_some ts : forall o o',
+  apply_tokens ts o = Some o' ->
+  (o_nx o' = (o_nx o || t_nx ts) /\ o_xx o' = (o_xx o || t_xx ts) /\ o_get o' = (o_get o || t_get ts) /\
+   o_keepttl o' = (o_keepttl o || t_keep ts)) /\
+  chan_ok (t_ex ts) (o_ex o) (o_ex o') /\ chan_ok (t_px ts) (o_px o) (o_px o') /\
+  chan_ok (t_exat ts) (o_exat o) (o_exat o').
+Proof.
+  induction ts as [|t ts IH]; intros o o' H.
+  - inversion H; subst. cbn. rewrite !orb_false_r. unfold chan_ok. cbn. intuition.
+  - destruct t; cbn [apply_tokens] in H; try (destruct (atoi64 a) as [n|] eqn:A; [|discriminate]);
+      apply IH in H; clear IH; destruct H as ((H1 & H2 & H3 & H4) & C1 & C2 & C3).
+    + change (t_nx (ONX :: ts)) with true. change (t_xx (ONX :: ts)) with (t_xx ts).
+      change (t_get (ONX :: ts)) with (t_get ts). change (t_keep (ONX :: ts)) with (t_keep ts).
+      change (t_ex (ONX :: ts)) with (t_ex ts). change (t_px (ONX :: ts)) with (t_px ts).
+      change (t_exat (ONX :: ts)) with (t_exat ts). cbn in H1, H2, H3, H4, C1, C2, C3.
+      rewrite H1, orb_true_r. auto.
+    + change (t_nx (OXX :: ts)) with (t_nx ts). change (t_xx (OXX :: ts)) with true.
+      change (t_get (OXX :: ts)) with (t_get ts). change (t_keep (OXX :: ts)) with (t_keep ts).
+      change (t_ex (OXX :: ts)) with (t_ex ts). change (t_px (OXX :: ts)) with (t_px ts).
+      change (t_exat (OXX :: ts)) with (t_exat ts). cbn in H1, H2, H3, H4, C1, C2, C3.
+      rewrite H2, orb_true_r. auto.
+    + change (t_nx (OGET :: ts)) with (t_nx ts). change (t_xx (OGET :: ts)) with (t_xx ts).
+      change (t_get (OGET :: ts)) with true. change (t_keep (OGET :: ts)) with (t_keep ts).
+      change (t_ex (OGET :: ts)) with (t_ex ts). change (t_px (OGET :: ts)) with (t_px ts).
+      change (t_exat (OGET :: ts)) with (t_exat ts). cbn in H1, H2, H3, H4, C1, C2, C3.
+      rewrite H3, orb_true_r. auto.
+    + change (t_nx (OKEEPTTL :: ts)) with (t_nx ts). change (t_xx (OKEEPTTL :: ts)) with (t_xx ts).
+      change (t_get (OKEEPTTL :: ts)) with (t_get ts). change (t_keep (OKEEPTTL :: ts)) with true.
+      change (t_ex (OKEEPTTL :: ts)) with (t_ex ts). change (t_px (OKEEPTTL :: ts)) with (t_px ts).
+      change (t_exat (OKEEPTTL :: ts)) with (t_exat ts). cbn in H1, H2, H3, H4, C1, C2, C3.
+      rewrite H4, orb_true_r. auto.
+    + change (t_nx (OEX a :: ts)) with (t_nx ts). change (t_xx (OEX a :: ts)) with (t_xx ts).
+      change (t_get (OEX a :: ts)) with (t_get ts). change (t_keep (OEX a :: ts)) with (t_keep ts).
+      change (t_ex (OEX a :: ts)) with (a :: t_ex ts). change (t_px (OEX a :: ts)) with (t_px ts).
+      change (t_exat (OEX a :: ts)) with (t_exat ts). cbn in H1, H2, H3, H4, C1, C2, C3.
+      pose proof (chan_cons a n _ (o_ex o) _ A C1). auto.
+    + change (t_nx (OPX a :: ts)) with (t_nx ts). change (t_xx (OPX a :: ts)) with (t_xx ts).
+      change (t_get (OPX a :: ts)) with (t_get ts). change (t_keep (OPX a :: ts)) with (t_keep ts).
+      change (t_ex (OPX a :: ts)) with (t_ex ts). change (t_px (OPX a :: ts)) with (a :: t_px ts).
+      change (t_exat (OPX a :: ts)) with (t_exat ts). cbn in H1, H2, H3, H4, C1, C2, C3.
+      pose proof (chan_cons a n _ (o_px o) _ A C2). auto.
+    + change (t_nx (OEXAT a :: ts)) with (t_nx ts). change (t_xx (OEXAT a :: ts)) with (t_xx ts).
+      change (t_get (OEXAT a :: ts)) with (t_get ts). change (t_keep (OEXAT a :: ts)) with (t_keep ts).
+      change (t_ex (OEXAT a :: ts)) with (t_ex ts). change (t_px (OEXAT a :: ts)) with (t_px ts).
+      change (t_exat (OEXAT a :: ts)) with (a :: t_exat ts). cbn in H1, H2, H3, H4, C1, C2, C3.
+      pose proof (chan_cons a n _ (o_exat o) _ A C3). auto.
+Qed.
+
+Lemma apply_tokens_none ts : forall o, apply_tokens ts o = None ->
+  all_read atoi64 (t_ex ts) && all_read atoi64 (t_px ts) && all_read atoi64 (t_exat ts) = false.
+Proof.
+  induction ts as [|t ts IH]; intros o H; [discriminate|].
+  destruct t; cbn [apply_tokens] in H;
+    unfold t_ex, t_px, t_exat in *; cbn [flat_map app all_read forallb]; fold (all_read atoi64);
+    try (apply IH in H; exact H).
+  - destruct (atoi64 a); [apply IH in H; exact H|reflexivity].
+  - destruct (atoi64 a); [apply IH in H; exact H|]. cbn [andb]. rewrite andb_false_r. reflexivity.
+  - destruct (atoi64 a); [apply IH in H; exact H|]. cbn [andb]. rewrite !andb_false_r. reflexivity.
+Qed.
+
+Definition kinds_of (o : setopts) : Z :=
+  (if o_keepttl o then 1 else 0) + (if isSome (o_ex o) then 1 else 0)
+  + (if isSome (o_px o) then 1 else 0) + (if isSome (o_exat o) then 1 else 0).
+Definition deadline_of (now : Z) (o : setopts) : option (option Z) :=
+  match o_ex o, o_px o, o_exat o with
+  | Some n, _, _ => Some (if (0 <? n) && in_int64 (now + n) then Some (now + n) else None)
+  | _, Some n, _ => Some (if 0 <? n then Some (now + (n + 999) / 1000) else None)
+  | _, _, Some n => Some (if 0 <? n then Some n else None)
+  | None, None, None => None
+  end.
+
+Lemma set_decide now o :
+  ((o_nx o && o_xx o) || (1 <? kinds_of o)) = false ->
+  set_conflict o || ex_overflow now (o_ex o) =
+  match deadline_of now o with Some None => true | _ => false end.
+Proof.
+  destruct o as [nx xx get keep [n1|] [n2|] [n3|]]; unfold kinds_of, deadline_of, set_conflict, ex_overflow, nonpos;
+    cbn [o_nx o_xx o_get o_keepttl o_ex o_px o_exat isSome];
+    destruct keep, nx, xx; cbn [andb orb negb]; intros H; try discriminate H; try reflexivity;
+    try (exfalso; lia).
+  all: try (destruct (n1 <=? 0) eqn:L1; destruct (in_int64 (now + n1)) eqn:L2;
+            replace (0 <? n1) with (negb (n1 <=? 0)) by lia; rewrite L1; reflexivity).
+  all: try (destruct (n2 <=? 0) eqn:L1; replace (0 <? n2) with (negb (n2 <=? 0)) by lia; rewrite L1; reflexivity).
+  all: try (destruct (n3 <=? 0) eqn:L1; replace (0 <? n3) with (negb (n3 <=? 0)) by lia; rewrite L1; reflexivity).
+Qed.
+
+Lemma set_conflict_bad now o :
+  ((o_nx o && o_xx o) || (1 <? kinds_of o)) = true -> set_conflict o || ex_overflow now (o_ex o) = true.
+Proof.
+  destruct o as [nx xx get keep [n1|] [n2|] [n3|]]; unfold kinds_of, set_conflict, ex_overflow, nonpos;
+    cbn [o_nx o_xx o_get o_keepttl o_ex o_px o_exat isSome];
+    destruct keep, nx, xx; cbn [andb orb negb]; intros H; try reflexivity; try (exfalso; lia);
+    rewrite ?orb_true_r; try reflexivity.
+Qed.
+
 (* ------------------------------------------------------------------ one command on a purged database *)
 (* [d] is the database a command body runs on (already purged at [now]); [V] is its view. *)
 Section Step.
@@ -451,5 +712,136 @@ Section Step.
     - start H HV'; split; [auto with c01|same HV'].
     - start H HV'; split; [auto with c01|same HV'].
     - apply (G [] None _ (or_intror (conj eq_refl (conj eq_refl eq_refl))) (setrange_arith [] o v Ho)).
+  Qed.
+
+  (* ---------------- DEL / MSET / RENAME / KEYS ---------------- *)
+  Lemma del_ok c keys r d' V' :
+    exec_del d (c :: keys) = (r, d') -> (forall k', V' k' = view d' now k') -> ref_del V keys r V'.
+  Proof.
+    unfold exec_del, ref_del. destruct keys as [|k0 ks]; [start H HV'; split; [auto with c01|same HV']|].
+    destruct (del_keys d (k0 :: ks) 0) as [n d1] eqn:D. start H HV'.
+    pose proof (del_keys_count (k0 :: ks) d 0) as C. rewrite D in C. cbn [fst] in C.
+    split.
+    - rewrite C. f_equal. rewrite Z.add_0_l. f_equal. apply filter_ext. intros k. unfold has_key. symmetry. apply vlive_get.
+    - intros k. rewrite HV', view_unfold.
+      pose proof (del_keys_get (k0 :: ks) d 0 k) as G. pose proof (del_keys_ttl (k0 :: ks) d 0 k) as T.
+      rewrite D in G, T. cbn [snd] in G, T. rewrite G, T.
+      destruct (mentions (k0 :: ks) k); [reflexivity|apply vs].
+  Qed.
+
+  Lemma mset_ok c rest r d' V' :
+    exec_mset d (c :: rest) = (r, d') -> (forall k', V' k' = view d' now k') -> ref_mset V rest r V'.
+  Proof.
+    unfold exec_mset, ref_mset.
+    pose proof (proj1 (mset_pairs_spec now rest) d) as S.
+    destruct rest as [|a [|b rest]]; try (start H HV'; split; [auto with c01|same HV']).
+    destruct (pairs_of (a :: b :: rest)) as [ps|] eqn:P.
+    - destruct S as (d1 & E & Hv). rewrite E.
+      assert (ps <> []) as NE by (cbn in P; destruct (pairs_of rest); [inversion P; discriminate|discriminate]).
+      destruct ps as [|p ps]; [congruence|]. start H HV'. split; [reflexivity|].
+      intros k. rewrite HV', Hv. apply mset_view_ext. apply view_same.
+    - rewrite S. start H HV'; split; [auto with c01|same HV'].
+  Qed.
+
+  Lemma rename_ok c old new r d' V' :
+    exec_rename d [c; old; new] = (r, d') -> (forall k', V' k' = view d' now k') -> ref_rename V old new r V'.
+  Proof.
+    unfold exec_rename, ref_rename. rewrite get_V, ttl_V.
+    destruct (V old) as [[v t]|] eqn:E; [|start H HV'; split; [auto with c01|same HV']].
+    start H HV'. split; [reflexivity|].
+    intros k'. rewrite HV', view_unfold. unfold upd.
+    destruct t as [t|]; autorewrite with dbops; rewrite ?bytes_eqb_refl;
+      (destruct (bytes_eqb_spec k' new) as [->|N1];
+       [rewrite ?bytes_eqb_refl; try rewrite (live_t _ _ _ E); reflexivity|]);
+      (destruct (bytes_eqb_spec k' old) as [->|N2]; [reflexivity|apply vs]).
+  Qed.
+
+  Lemma in_akeys_V k : In k (akeys (kv d)) <-> V k <> None.
+  Proof.
+    rewrite <- amem_true_iff, amem_db_get, get_V. destruct (V k) as [[? ?]|]; split; intros H; congruence.
+  Qed.
+
+  Lemma keys_ok c p r d' V' :
+    exec_keys d [c; p] = (r, d') -> (forall k', V' k' = view d' now k') -> ref_keys V p r V'.
+  Proof.
+    unfold exec_keys, ref_keys. start H HV'. split; [same HV'|].
+    exists (keys_filter p (akeys (kv d))). split; [reflexivity|]. split.
+    - unfold keys_filter. apply NoDup_filter. apply W.
+    - intros k. rewrite keys_filter_exact, in_akeys_V. reflexivity.
+  Qed.
+
+  (* ---------------- SET ---------------- *)
+  Definition old_ttl (k : bytes) : option Z := match V k with Some (_, t) => t | None => None end.
+
+  Lemma write_ok k v o V' :
+    kinds_of o <= 1 -> deadline_of now o <> Some None ->
+    (forall k', V' k' = view (set_apply_ttl (db_set d k (VStr v)) now k o) now k') ->
+    veq V' (written V now k v
+              (match deadline_of now o with
+               | Some (Some dl) => Some dl
+               | _ => if o_keepttl o then old_ttl k else None end)).
+  Proof.
+    unfold old_ttl.
+    destruct o as [nx xx get keep [n1|] [n2|] [n3|]]; unfold kinds_of, deadline_of, set_apply_ttl, written;
+      cbn [o_nx o_xx o_get o_keepttl o_ex o_px o_exat isSome]; destruct keep; intros K D HV'; try (exfalso; lia).
+    - (* EX n1 *)
+      destruct ((0 <? n1) && in_int64 (now + n1)) eqn:P; [|congruence].
+      assert (L : (now + n1 <=? now) = false) by lia.
+      rewrite L. post HV'. rewrite L. reflexivity.
+    - (* PX n2 *)
+      destruct (0 <? n2) eqn:P; [|congruence].
+      assert (L : (now + (n2 + 999) / 1000 <=? now) = false).
+      { assert (0 < (n2 + 999) / 1000) by (apply Z.div_str_pos; lia). lia. }
+      rewrite L. post HV'. rewrite L. reflexivity.
+    - (* EXAT n3 *)
+      destruct (0 <? n3) eqn:P; [|congruence].
+      destruct (n3 <=? now) eqn:L; post HV'; rewrite L; reflexivity.
+    - (* KEEPTTL *)
+      destruct (V k) as [[v0 [t|]]|] eqn:E; [rewrite (live_t _ _ _ E)| |];
+        post HV'; rewrite ttl_V, E; rewrite ?(live_t _ _ _ E); reflexivity.
+    - (* no expiry option *)
+      post HV'. reflexivity.
+  Qed.
+
+  Lemma ormax_none x : ormax x None = x.
+  Proof. destruct x; reflexivity. Qed.
+
+  Lemma set_ok c k v opts r d' V' :
+    exec_set d now (c :: k :: v :: opts) = (r, d') -> (forall k', V' k' = view d' now k') ->
+    ref_set atoi64 V now k v opts r V'.
+  Proof.
+    unfold exec_set, ref_set.
+    rewrite (set_parse_tokens (List.length opts) opts setopts0 (le_n _)).
+    destruct (set_tokens opts) as [ts|]; [|start H HV'; split; [auto with c01|same HV']].
+    destruct (apply_tokens ts setopts0) as [o|] eqn:AT.
+    2:{ rewrite (apply_tokens_none _ _ AT). cbn [negb]. rewrite orb_true_r.
+        start H HV'; split; [auto with c01|same HV']. }
+    destruct (apply_tokens_some _ _ _ AT) as ((F1 & F2 & F3 & F4) & (X1 & X2 & X3) & (P1 & P2 & P3) & (A1 & A2 & A3)).
+    cbn [setopts0 o_nx o_xx o_get o_keepttl o_ex o_px o_exat orb] in F1, F2, F3, F4, X1, P1, A1.
+    rewrite ormax_none in X1, P1, A1.
+    rewrite X2, P2, A2. cbn [andb negb]. rewrite orb_false_r.
+    assert (K : expiry_kinds ts = kinds_of o).
+    { unfold expiry_kinds, kinds_of. rewrite F4, X1, P1, A1, X3, P3, A3. reflexivity. }
+    assert (DL : set_deadline atoi64 now ts = deadline_of now o).
+    { unfold set_deadline, deadline_of. rewrite X1, P1, A1. reflexivity. }
+    rewrite K, DL, <- F1, <- F2, <- F3, <- F4.
+    destruct ((o_nx o && o_xx o) || (1 <? kinds_of o)) eqn:BAD.
+    { rewrite (set_conflict_bad now o BAD). start H HV'; split; [auto with c01|same HV']. }
+    rewrite (set_decide now o BAD).
+    assert (WR : forall V', (forall k', V' k' = view (set_apply_ttl (db_set d k (VStr v)) now k o) now k') ->
+                 deadline_of now o <> Some None ->
+                 veq V' (written V now k v (match deadline_of now o with
+                                            | Some (Some dl) => Some dl
+                                            | _ => if o_keepttl o then old_ttl k else None end))).
+    { intros V0 H0 H1. apply write_ok; [lia|exact H1|exact H0]. }
+    unfold old_ttl in WR. revert WR.
+    destruct (deadline_of now o) as [[dl|]|] eqn:D.
+    - ck k E; intros WR; destruct (o_nx o), (o_xx o), (o_get o); cbn [andb orb] in BAD; try discriminate BAD;
+        start H HV'; try (split; [reflexivity|]); try (split; [auto with c01|]); try (same HV');
+        try (apply WR; [exact HV'|discriminate]).
+    - intros _. start H HV'; split; [auto with c01|same HV'].
+    - ck k E; intros WR; destruct (o_nx o), (o_xx o), (o_get o); cbn [andb orb] in BAD; try discriminate BAD;
+        start H HV'; try (split; [reflexivity|]); try (split; [auto with c01|]); try (same HV');
+        try (apply WR; [exact HV'|discriminate]).
   Qed.
 End Step.
